@@ -20,6 +20,9 @@
 //!              lines / branches missing from the report are the model's filter list; a pattern that
 //!              does not compile (or is not UTF-8) ends the run with status 2 and no report.
 //!
+//! The modelled subset: literals, `.`, classes (ranges, negation, leading `]` `-`, Perl and POSIX classes),
+//! Unicode `\d \s \w`, single-char and hex escapes, groups, alternation, every repetition form, every
+//! assertion; flags, named groups, `\p{..}`, nested classes and class operators are `Unsupported`.
 //! Trusted: nothing about regular expressions – the crate is the code under test here.
 use corrlib::*;
 use grcov::FileFilter;
@@ -57,6 +60,11 @@ const MESSAGES: &[(&str, &str)] = &[
     ("incomplete escape sequence, reached end of pattern prematurely", "EscapeUnexpectedEof"),
     ("unrecognized escape sequence", "EscapeUnrecognized"),
     ("backreferences are not supported", "UnsupportedBackreference"),
+    ("hexadecimal literal empty", "EscapeHexEmpty"),
+    ("hexadecimal literal is not a Unicode scalar value", "EscapeHexInvalid"),
+    ("invalid hexadecimal digit", "EscapeHexInvalidDigit"),
+    ("special word boundary assertion is either unclosed or contains an invalid character", "SpecialWordBoundaryUnclosed"),
+    ("unrecognized special word boundary assertion, valid choices are: start, end, start-half or end-half", "SpecialWordBoundaryUnrecognized"),
     ("exceed the maximum number of nested parentheses/brackets (250)", "NestLimitExceeded"),
 ];
 
@@ -159,21 +167,49 @@ fn escapeable(c: char) -> bool {
 
 #[derive(Clone, Debug)]
 enum Item {
-    Ch(char),
+    /// the char; 0 = verbatim / escaped when needed, 3.. = a hex escape
+    Ch(char, u8),
     Range(char, char),
     Perl(u8, bool),
+    /// index into POSIX, negated: `[:name:]` / `[:^name:]`
+    Posix(usize, bool),
+}
+
+const POSIX: [&str; 14] = ["alnum", "alpha", "ascii", "blank", "cntrl", "digit", "graph", "lower", "print", "punct", "space", "upper", "word", "xdigit"];
+
+/// the harness' own reading of the POSIX class names
+fn posix_has(k: usize, c: char) -> bool {
+    match POSIX[k] {
+        "alnum" => c.is_ascii_alphanumeric(),
+        "alpha" => c.is_ascii_alphabetic(),
+        "ascii" => c.is_ascii(),
+        "blank" => c == ' ' || c == '\t',
+        "cntrl" => c.is_ascii_control(),
+        "digit" => c.is_ascii_digit(),
+        "graph" => c.is_ascii_graphic(),
+        "lower" => c.is_ascii_lowercase(),
+        "print" => c.is_ascii_graphic() || c == ' ',
+        "punct" => c.is_ascii_punctuation(),
+        "space" => matches!(c, '\t' | '\n' | '\u{b}' | '\u{c}' | '\r' | ' '),
+        "upper" => c.is_ascii_uppercase(),
+        "word" => c.is_ascii_alphanumeric() || c == '_',
+        _ => c.is_ascii_hexdigit(),
+    }
 }
 
 #[derive(Clone, Debug)]
 enum Node {
-    /// the char; 0 = verbatim when possible, 1 = escaped when possible, 2 = by name (`\t` …) when it has one
+    /// the char; 0 = verbatim when possible, 1 = escaped when possible, 2 = by name (`\t` …) when it has one,
+    /// 3..=8 = one of the six hex spellings (`\xNN` `\x{N}` `\uNNNN` `\u{N}` `\UNNNNNNNN` `\U{N}`) when the
+    /// char fits
     Lit(char, u8),
     Dot,
     /// negated, leading `-`s, leading `]`, items, trailing `-`
     Class(bool, usize, bool, Vec<Item>, bool),
     /// 0 `\d`, 1 `\s`, 2 `\w`; negated
     Perl(u8, bool),
-    /// 0 `^`, 1 `$`, 2 `\A`, 3 `\z`, 4 `\b`, 5 `\B`
+    /// 0 `^`, 1 `$`, 2 `\A`, 3 `\z`, 4 `\b`, 5 `\B`, 6 `\<`, 7 `\>`, 8 `\b{start}`, 9 `\b{end}`, 10 `\b{start-half}`,
+    /// 11 `\b{end-half}`
     Look(u8),
     /// capturing
     Group(bool, Box<Node>),
@@ -198,6 +234,25 @@ fn lit_text(c: char, style: u8, in_class: bool, out: &mut String) {
         if let Some(n) = name {
             out.push('\\');
             out.push(n);
+            return;
+        }
+    }
+    if style >= 3 {
+        let v = c as u32;
+        // upper / lower case digits, zero padding in braces: decided by the value itself (deterministic text)
+        let up = v % 2 == 0;
+        let h = |w: usize| if up { format!("{:0w$X}", v, w = w) } else { format!("{:0w$x}", v, w = w) };
+        let t = match style {
+            3 if v <= 0xff => Some(format!("\\x{}", h(2))),
+            4 => Some(format!("\\x{{{}}}", h(1 + (v % 3) as usize))),
+            5 if v <= 0xffff => Some(format!("\\u{}", h(4))),
+            6 => Some(format!("\\u{{{}}}", h(1))),
+            7 => Some(format!("\\U{}", h(8))),
+            8 => Some(format!("\\U{{{}}}", h(6))),
+            _ => None,
+        };
+        if let Some(t) = t {
+            out.push_str(&t);
             return;
         }
     }
@@ -263,7 +318,7 @@ impl Node {
                 }
                 for it in items {
                     match it {
-                        Item::Ch(c) => lit_text(*c, 0, true, out),
+                        Item::Ch(c, st) => lit_text(*c, *st, true, out),
                         Item::Range(a, b) => {
                             lit_text(*a, 0, true, out);
                             out.push('-');
@@ -272,6 +327,11 @@ impl Node {
                         Item::Perl(k, n) => {
                             out.push('\\');
                             out.push(perl_letter(*k, *n));
+                        }
+                        Item::Posix(k, n) => {
+                            out.push_str(if *n { "[:^" } else { "[:" });
+                            out.push_str(POSIX[*k]);
+                            out.push_str(":]");
                         }
                     }
                 }
@@ -284,7 +344,9 @@ impl Node {
                 out.push('\\');
                 out.push(perl_letter(*k, *n));
             }
-            Look(k) => out.push_str(["^", "$", "\\A", "\\z", "\\b", "\\B"][*k as usize]),
+            Look(k) => out.push_str(
+                ["^", "$", "\\A", "\\z", "\\b", "\\B", "\\<", "\\>", "\\b{start}", "\\b{end}", "\\b{start-half}", "\\b{end-half}"][*k as usize],
+            ),
             Group(cap, n) => {
                 out.push_str(if *cap { "(" } else { "(?:" });
                 n.text(out);
@@ -339,7 +401,7 @@ impl Node {
         match self {
             Lit(..) | Look(_) => 1,
             Dot => 10,
-            Class(_, _, _, items, _) => 8 + items.iter().map(|i| match i { Item::Perl(2, _) => 400, Item::Perl(..) => 100, _ => 14 }).sum::<u64>(),
+            Class(_, _, _, items, _) => 8 + items.iter().map(|i| match i { Item::Perl(2, _) => 400, Item::Perl(..) | Item::Posix(..) => 100, _ => 14 }).sum::<u64>(),
             Perl(k, _) => if *k == 2 { 400 } else { 100 },
             Group(_, n) => n.weight() + 1,
             Cat(ns) | Alt(ns) => ns.iter().map(|n| n.weight()).sum::<u64>() + 1,
@@ -356,9 +418,10 @@ impl Node {
                 m |= *bracket && c == ']';
                 for it in items {
                     m |= match it {
-                        Item::Ch(x) => *x == c,
+                        Item::Ch(x, _) => *x == c,
                         Item::Range(a, b) => *a <= c && c <= *b,
                         Item::Perl(k, n) => perl_has(*k, c) != *n,
+                        Item::Posix(k, n) => posix_has(*k, c) != *n,
                     };
                 }
                 m != *neg
@@ -384,7 +447,11 @@ impl Node {
                         0 | 2 => i == 0,
                         1 | 3 => i == h.len(),
                         4 => before != word(i),
-                        _ => before == word(i),
+                        5 => before == word(i),
+                        6 | 8 => !before && word(i),
+                        7 | 9 => before && !word(i),
+                        10 => !before,
+                        _ => !word(i),
                     }
                 })
                 .cloned()
@@ -482,7 +549,7 @@ fn gen_class(rng: &mut Rng) -> Node {
     let n = rng.below(4) + if dashes == 0 && !bracket && !trail { 1 } else { 0 };
     for _ in 0..n {
         match rng.below(8) {
-            0..=3 => items.push(Item::Ch(pick_char(rng))),
+            0..=3 => items.push(Item::Ch(pick_char(rng), if rng.chance(1, 6) { 3 + rng.below(6) as u8 } else { 0 })),
             4..=5 => {
                 let (a, b) = (pick_char(rng), pick_char(rng));
                 let (a, b) = if a <= b { (a, b) } else { (b, a) };
@@ -490,7 +557,7 @@ fn gen_class(rng: &mut Rng) -> Node {
                 // every char a line can contain is from the alphabet, so membership is just comparison
                 items.push(Item::Range(a, b));
             }
-            6 => items.push(Item::Perl(rng.below(3) as u8, rng.chance(1, 3))),
+            6 => items.push(if rng.chance(1, 2) { Item::Perl(rng.below(3) as u8, rng.chance(1, 3)) } else { Item::Posix(rng.below(14) as usize, rng.chance(1, 3)) }),
             _ => items.push(Item::Range('a', 'z')),
         }
     }
@@ -499,11 +566,11 @@ fn gen_class(rng: &mut Rng) -> Node {
 
 fn gen_atom(rng: &mut Rng, depth: u32) -> Node {
     match rng.below(20) {
-        0..=8 => Lit(pick_char(rng), rng.below(3) as u8),
+        0..=8 => Lit(pick_char(rng), if rng.chance(1, 8) { 3 + rng.below(6) as u8 } else { rng.below(3) as u8 }),
         9 => Dot,
         10 | 11 => gen_class(rng),
         12 | 13 => Perl(rng.below(3) as u8, rng.chance(1, 3)),
-        14 | 15 => Look(rng.below(6) as u8),
+        14 | 15 => Look(if rng.chance(1, 3) { 6 + rng.below(6) as u8 } else { rng.below(6) as u8 }),
         _ => {
             if depth == 0 {
                 Lit(pick_char(rng), 0)
@@ -708,7 +775,19 @@ const BAD_ESCAPES: &[char] = &['e', 'g', 'i', 'j', 'k', 'l', 'm', 'o', 'q', 'y',
 fn gen_malformed(rng: &mut Rng) -> (String, &'static str) {
     let v = format!("(?:{})", gen_pattern(rng).pattern());
     let w = gen_pattern(rng).pattern();
-    match rng.below(34) {
+    match rng.below(46) {
+        43 => (format!("{}\\b{{{}", v, ["start", "end-half", "x", "start-"][rng.below(4) as usize]), "SpecialWordBoundaryUnclosed"),
+        44 => (format!("{}\\b{{{}{}", v, ["start ", "end1}", "a,b}", "start-half)"][rng.below(4) as usize], w), "SpecialWordBoundaryUnclosed"),
+        45 => (format!("{}\\b{{{}}}{}", v, ["foo", "Start", "start-end", "-", "starthalf", "e"][rng.below(6) as usize], w), "SpecialWordBoundaryUnrecognized"),
+        34 => (format!("{}\\{}", v, ["x", "u", "U", "x4", "u00e", "U0001F60", "x{", "u{41", "U{"][rng.below(9) as usize]), "EscapeUnexpectedEof"),
+        35 => (format!("{}\\{}{}", v, ["xg1", "x4g", "u00g9", "U0001F6zz", "x{4g}", "u{ 41}", "x-1"][rng.below(7) as usize], w), "EscapeHexInvalidDigit"),
+        36 => (format!("{}\\{}{{}}{}", v, ["x", "u", "U"][rng.below(3) as usize], w), "EscapeHexEmpty"),
+        37 => (format!("{}\\{}{}", v, ["x{110000}", "uD800", "u{dfff}", "UFFFFFFFF", "x{123456789}", "U00110000"][rng.below(6) as usize], w), "EscapeHexInvalid"),
+        38 => (format!("{}[a-\\x{{110000}}]{}", v, w), "EscapeHexInvalid"),
+        39 => (format!("{}[\\x7a-\\x{{61}}]{}", v, w), "ClassRangeInvalid"),
+        40 => (format!("{}[\\x", v), "EscapeUnexpectedEof"),
+        41 => (format!("{}[\\u12", v), "EscapeUnexpectedEof"),
+        42 => (format!("{}[\\x{{}}]{}", v, w), "EscapeHexEmpty"),
         0 => (format!("({}", w), "GroupUnclosed"),
         1 => (format!("{}(?:{}", v, w), "GroupUnclosed"),
         2 => (format!("{})", w), "GroupUnopened"),
@@ -754,9 +833,9 @@ fn gen_outside(rng: &mut Rng) -> String {
     let v = format!("(?:{})", gen_pattern(rng).pattern());
     let w = gen_pattern(rng).pattern();
     const OUT: &[&str] = &[
-        "(?i)", "(?i:a)", "(?-u:a)", "(?x) a", "(?P<n>a)", "(?<n>a)", "(?P<n", "(?z)", "\\x41", "\\x{41}", "\\u00e9", "\\U0001F600",
-        "\\p{L}", "\\pL", "\\P{Greek}", "\\p{Nope}", "\\<", "\\>", "\\b{start}", "\\b{end-half}", "\\b{x", "[[:alpha:]]", "[a[b]]",
-        "[a&&b]", "[a--b]", "[a~~b]", "[\\x41]", "[\\p{L}]", "[a[:digit:]]", "\\w{40}", "[^\\W]{50}", ".{2000}", "a{20001}", "(\\d{10}){20}",
+        "(?i)", "(?i:a)", "(?-u:a)", "(?x) a", "(?P<n>a)", "(?<n>a)", "(?P<n", "(?z)",
+        "\\p{L}", "\\pL", "\\P{Greek}", "\\p{Nope}", "[[:alph:]]", "[[:alpha]]", "[[:al:pha:]]", "[[=a=]]", "[a[b]]",
+        "[a&&b]", "[a--b]", "[a~~b]", "[\\p{L}]", "\\w{40}", "[^\\W]{50}", ".{2000}", "a{20001}", "(\\d{10}){20}",
     ];
     format!("{}{}{}", v, rng.pick(OUT), w)
 }
@@ -764,8 +843,8 @@ fn gen_outside(rng: &mut Rng) -> String {
 const PIECES: &[&str] = &[
     "a", "b", "Z", "0", "7", "_", " ", "-", "é", "名", "٣", ".", "^", "$", "|", "(", "(", ")", ")", "(?:", "[", "[", "]", "]", "[^", "{", "}",
     ",", "?", "*", "+", "\\", "\\d", "\\w", "\\S", "\\b", "\\B", "\\A", "\\z", "\\.", "\\-", "\\]", "\\[", "\\/", "\\ ", "\\t", "\\n", "\\e",
-    "\\1", "\\x", "\\p", "\\<", "{2}", "{2,}", "{2,3}", "{ 1 , 2 }", "{3,1}", "{,", "{2", "a-z", "0-9", "--", "&&", "~~", "&", "~", "#", "(?i)",
-    "(?", "(?P<n>", "(?=", "[:alpha:]", "\\b{", "??", "*?", "+?", "\t", "\r", "\u{a0}",
+    "\\1", "\\x", "\\x4", "\\x41", "\\x{", "\\u00e9", "\\u", "\\U", "\\U0001F600", "\\x{41}", "g", "f", "1", "4", "\\p", "\\<", "\\>", "\\b{start}", "\\b{end", "\\b{x}", "start", "-half}", "{2}", "{2,}", "{2,3}", "{ 1 , 2 }", "{3,1}", "{,", "{2", "a-z", "0-9", "--", "&&", "~~", "&", "~", "#", "(?i)",
+    "(?", "(?P<n>", "(?=", "[:alpha:]", "[:^space:]", "[:", ":]", "[[:word:]", "\\b{", "??", "*?", "+?", "\t", "\r", "\u{a0}",
 ];
 
 fn gen_raw(rng: &mut Rng) -> String {
@@ -843,7 +922,8 @@ fn syntax_eval(rep: &mut Report, cases: &[SynCase], tag: &str) {
 
 fn syntax(rep: &mut Report) {
     let mut rng = Rng::new(rep.seed ^ 0xC16_5E7);
-    let n = rep.budget(2500, 12);
+    // development aid: C16_RX_N=<n> runs n syntax cases instead of the tier's budget
+    let n = std::env::var("C16_RX_N").ok().and_then(|v| v.parse().ok()).unwrap_or_else(|| rep.budget(2500, 12));
     let mut cases: Vec<SynCase> = vec![];
     for i in 0..n {
         let (p, class) = match i % 10 {
@@ -941,7 +1021,9 @@ fn match_eval(rep: &mut Report, dir: &Path, cases: &[MatchCase], tag: &str) {
     let reqs: Vec<String> = cases.iter().map(|c| c.request()).collect();
     let ans = run_model_named(DRV, &reqs, &rep.workdir, tag);
     let file = dir.join("line.src");
+    let (mut t_compile, mut t_create, mut t_oracle) = (0u128, 0u128, 0u128);
     for (c, m) in cases.iter().zip(ans.iter()) {
+        let t0 = std::time::Instant::now();
         let compiled: Vec<Option<Result<Regex, Out>>> = c
             .pats
             .iter()
@@ -957,8 +1039,12 @@ fn match_eval(rep: &mut Report, dir: &Path, cases: &[MatchCase], tag: &str) {
         }
         let re = |i: usize| compiled[i].as_ref().map(|r| r.as_ref().unwrap().clone());
         let ff = FileFilter::new(re(0), re(1), re(2), re(3), re(4), re(5));
+        t_compile += t0.elapsed().as_micros();
+        let t0 = std::time::Instant::now();
         std::fs::write(&file, &c.text).unwrap();
         let obs = crate::observe_create(&ff, &file);
+        t_create += t0.elapsed().as_micros();
+        let t0 = std::time::Instant::now();
         // the property, on the independent matcher's bits
         let lines = crate::split_lines(&c.text);
         let readable = std::str::from_utf8(&c.text).is_ok();
@@ -984,6 +1070,7 @@ fn match_eval(rep: &mut Report, dir: &Path, cases: &[MatchCase], tag: &str) {
             vec![]
         };
         let spec = crate::spec_of(&opts, &bits, readable);
+        t_oracle += t0.elapsed().as_micros();
         let want_l: BTreeSet<u32> = (1..=bits.len()).filter(|&n| spec.line[n]).map(|n| n as u32).collect();
         let want_b: BTreeSet<u32> = (1..=bits.len()).filter(|&n| spec.branch[n]).map(|n| n as u32).collect();
         let nontrivial = !want_l.is_empty() || !want_b.is_empty();
@@ -1003,6 +1090,7 @@ fn match_eval(rep: &mut Report, dir: &Path, cases: &[MatchCase], tag: &str) {
             rep.fail("disagreement", None, format!("FileFilter::create: {} ; model createPat: {}", obs.text, m), c.json());
         }
     }
+    rep.notes.push(format!("{}: {} cases; Regex::new {} ms, FileFilter::create {} ms, independent matcher {} ms", tag, cases.len(), t_compile / 1000, t_create / 1000, t_oracle / 1000));
 }
 
 fn none6<X>() -> [Option<X>; 6] {
@@ -1276,8 +1364,8 @@ fn cli(rep: &mut Report) {
 pub fn run(rep: &mut Report) {
     rep.rule.push_str(
         "; regex streams: patterns printed from generated trees of the modelled subset of the regex crate's syntax (literals incl. \
-         non-ASCII and escaped, `.`, classes with ranges / negation / leading `]` `-` / Perl classes, `\\d\\s\\w` and negations, groups, \
-         alternation, `? * + {n} {n,} {n,m}` lazy or not and with white space, `^ $ \\A \\z \\b \\B`), malformed patterns of every error \
+         non-ASCII and escaped, `.`, classes with ranges / negation / leading `]` `-` / Perl and POSIX classes, `\\d\\s\\w` and negations, groups, \
+         alternation, `? * + {n} {n,} {n,m}` lazy or not and with white space, every assertion `^ $ \\A \\z \\b \\B \\< \\> \\b{start|end|start-half|end-half}`, hex escapes), malformed patterns of every error \
          kind, constructs outside the subset, raw glued pieces, patterns at the nest and size limits; lines sampled from the pattern \
          plus noise (ASCII, non-ASCII, empty, CR inside and at the end), LF/CRLF texts: Regex::new outcome and FileFilter::create vs \
          the model, an independent matcher and the marker rule; the real binary with pattern options",
